@@ -137,6 +137,40 @@ func c06Gen(r *vh.Rand, tier string, n int, emit func(any)) {
 			}
 		}
 	}
+	// rule-family exhaustive scopes: every string up to a length over a small alphabet that feeds one of the
+	// look-behind state machines (emoji ZWJ sequences and RI parity; WB4 skipping with the mid-letter/quote rules;
+	// LB9/LB10 with the numeric and space contexts)
+	families := []struct {
+		alphabet []rune
+		maxLen   int
+	}{
+		{[]rune{0x1F600, 0x200D, 0x0301, 0x1F1E6, 'a', 0x1F3FB}, 5},
+		{[]rune{'a', 0x05D0, '"', '\'', ':', '1', ',', 0x0301, 0x200D}, 4},
+		{[]rune{'$', '(', '1', ',', ')', 0x0301, ' ', 'a', '-', 0x200D, '%'}, 4},
+		{[]rune{0x05D0, '-', 0x0308, 'a', ' ', 0x200B, 0x2014, '"', '(', 0x1F1E6}, 4},
+	}
+	if tier == "thorough" {
+		for i := range families {
+			families[i].maxLen++
+		}
+	}
+	if tier != "search" {
+		for _, f := range families {
+			var rec func(prefix []rune)
+			rec = func(prefix []rune) {
+				if len(prefix) >= 3 { // lengths 1, 2 are covered by the representative sweep
+					emit(c06Input{Text: append([]rune(nil), prefix...)})
+				}
+				if len(prefix) == f.maxLen {
+					return
+				}
+				for _, c := range f.alphabet {
+					rec(append(prefix, c))
+				}
+			}
+			rec(nil)
+		}
+	}
 	pick := func() rune {
 		switch r.Intn(10) {
 		case 0, 1, 2:
